@@ -31,16 +31,58 @@ class C04(core.Prop):
             {'entry': 'string', 'actual': 'x\nuser bob\ny\n', 'expected': 'x\ny\n', 'opts': {'remove_lines': ['user']}},
         ]
 
+    RAW_PAIRS = [
+        # (reference bytes, actual bytes, keyword arguments): text that cannot be decoded as asked, differing in such bytes
+        (b'Ren\xe9\n', b'Ren\xe8\n', {}), (b'caf\xe9 1\nb\n', b'caf\xea 1\nb\n', {}), (b'a\n\xff\xfe\n', b'a\n\xff\xfd\n', {}),
+        ('é\n'.encode('utf-8'), 'è\n'.encode('utf-8'), {'encoding': 'ascii'}),
+        ('x\né y\n'.encode('utf-8'), 'x\nê y\n'.encode('utf-8'), {'encoding': 'ascii'}),
+        (b'Ren\xe9\n', b'Ren\xe9\n', {}),
+    ]
+
     def gen_case(self, rng, i):
+        if rng.random() < 0.03:
+            e, a, kw = rng.choice(self.RAW_PAIRS)
+            return {'entry': rng.choice(['rawfile', 'rawfiles']), 'expected_hex': e.hex(), 'actual_hex': a.hex(), 'opts': dict(kw)}
         return cf.gen_case(rng)
 
+    def run_raw(self, case):
+        import os, shutil, tempfile
+        root = tempfile.mkdtemp(prefix='cfr_')
+        try:
+            os.makedirs(os.path.join(root, 'tmp'))
+            ref, act = os.path.join(root, 'ref.txt'), os.path.join(root, 'act.txt')
+            with open(ref, 'wb') as f:
+                f.write(bytes.fromhex(case['expected_hex']))
+            with open(act, 'wb') as f:
+                f.write(bytes.fromhex(case['actual_hex']))
+            res = {}
+
+            class R(cf._Ref):
+                tmp_dir = os.path.join(root, 'tmp')
+            R.regenerate = {}
+            r = R(lambda ok, msg: res.update(passed=bool(ok)))
+            try:
+                if case['entry'] == 'rawfile':
+                    r.assertTextFileCorrect(act, ref, **case['opts'])
+                else:
+                    r.assertTextFilesCorrect([act], [ref], **case['opts'])
+            except Exception as e:   # noqa
+                return {'passed': False, 'exc': type(e).__name__}
+            return {'passed': bool(res.get('passed')), 'exc': None}
+        finally:
+            shutil.rmtree(root, ignore_errors=True)
+
     def model_ops(self, case):
+        if case['entry'].startswith('raw'):
+            return []
         try:
             return [cf.model_op(case)]
         except ValueError:
             return []
 
     def impl_outputs(self, case):
+        if case['entry'].startswith('raw'):
+            return []
         return [cf.impl_output(case)]
 
     def canon_model(self, case, outs):
@@ -50,6 +92,8 @@ class C04(core.Prop):
         for k in case['opts']:
             self.count('opt_' + k)
         self.count('entry_' + case['entry'])
+        if case['entry'].startswith('raw'):
+            return json.dumps(case, sort_keys=True) if case['actual_hex'] != case['expected_hex'] else None
         a, e = cf.lines_seen_by_code(case)
         if a != e and case['opts']:
             return json.dumps(case, sort_keys=True)
@@ -58,6 +102,13 @@ class C04(core.Prop):
     def oracle(self, case):
         F = []
         fail = lambda clause, detail, key=None: F.append(core.Failure(clause, case, detail, key or clause))
+        if case['entry'].startswith('raw'):
+            # files that cannot be decoded as asked and differ: whatever the comparison does (refuse, fail), it does not pass
+            r = self.run_raw(case)
+            if r['passed'] and case['actual_hex'] != case['expected_hex']:
+                fail('false-pass', 'files differing in bytes that cannot be decoded (%s vs %s, %r) pass'
+                     % (case['actual_hex'], case['expected_hex'], case['opts']), 'false-pass:undecodable-bytes')
+            return F
         r = cf.run_assert(case)
         if r['exc'] is not None:
             fail('raises', repr(r['exc']), 'raises:' + type(r['exc']).__name__)
